@@ -45,8 +45,7 @@ structure Inst where
   A : Alg D
   showD : D → String
 
-def algOf (h : HashAlg) (fin : h.S → h.S) : Alg h.S :=
-  { B := h.B, L := h.L, lenBE := h.lenBE, f := h.compress, init := h.init, fin := fin }
+abbrev algOf := @HashMB.ofSpec
 
 def showW32 (a : Array UInt32) : String := ",".intercalate (a.toList.map hex32)
 def showW64 (a : Array UInt64) : String := ",".intercalate (a.toList.map hex64)
@@ -90,17 +89,22 @@ def hashStep (I : Inst) (s : HSt I) (toks : List String) : HSt I × String :=
   | ["S", c, fl, len, seed] =>
     let c := c.toNat!; let fl := fl.toNat!; let len := len.toNat!
     let data := xsBytes (UInt64.ofNat seed.toNat!) len
-    let r := if s.base then baseSubmit I.A s.m c data fl else ctxSubmit I.A s.m c data fl
-    let rej := if s.base then baseRejects (s.m.ctxs c) fl else rejects (s.m.ctxs c) fl
-    if rej then
-      let x := r.1.ctxs c
-      let tail := if s.sync then "" else s!" inuse={(occupied r.1).length}"
-      ({ s with m := r.1 }, s!"r={c} st={statusWord x} err={x.error} rejected" ++ tail)
-    else
-    ({ s with m := r.1 }, showRet I.showD r.1 r.2 s.sync)
+    let r? := if s.base then some (baseSubmit I.A s.m c data fl) else ctxSubmit I.A s.m c data fl
+    match r? with
+    | none => (s, "out-of-fuel")
+    | some r =>
+      let rej := if s.base then baseRejects (s.m.ctxs c) fl else rejects (s.m.ctxs c) fl
+      if rej then
+        let x := r.1.ctxs c
+        let tail := if s.sync then "" else s!" inuse={(occupied r.1).length}"
+        ({ s with m := r.1 }, s!"r={c} st={statusWord x} err={x.error} rejected" ++ tail)
+      else
+      ({ s with m := r.1 }, showRet I.showD r.1 r.2 s.sync)
   | ["F"] =>
-    let r := if s.base then (s.m, none) else ctxFlush s.P I.A (flushFuel s.m) s.m
-    ({ s with m := r.1 }, showRet I.showD r.1 r.2 s.sync)
+    let r? := if s.base then some (s.m, none) else ctxFlush s.P I.A (flushFuel s.m) s.m
+    match r? with
+    | none => (s, "out-of-fuel")
+    | some r => ({ s with m := r.1 }, showRet I.showD r.1 r.2 s.sync)
   | _ => (s, "bad-op")
 
 end IsalVerif.Driver
